@@ -23,10 +23,289 @@ theorem C09_equation_sequence (t0 tn : Ex) (h : Steps t0 tn) : HoldsRefines t0 t
   | refl => exact HoldsRefines.refl _
   | step r i _ hcan happ ih => exact ih.trans (C02_rewrite_preserves_truth r _ _ i hcan happ)
 
+/-- below a non-empty context the kind of the root does not depend on the focused node -/
+theorem plug_isOp_of_ne_nil {k : Ctx} (hk : k ≠ []) (o : Bop) (n n' : Ex) :
+    (plug k n).isOp o = (plug k n').isOp o := by
+  induction k generalizing n n' with
+  | nil => exact absurd rfl hk
+  | cons f fs ih =>
+    cases fs with
+    | nil => cases f <;> simp [plug, Frame.fill, Ex.isOp]
+    | cons g gs => simp only [plug] at ih ⊢; exact ih (by simp) _ _
+
+/-- a rewrite that keeps the context and the kind of the node keeps the kind of the root -/
+theorem plug_isOp_same (k : Ctx) {n n' : Ex} (h : n'.isOp .eq = n.isOp .eq) :
+    (plug k n').isOp .eq = (plug k n).isOp .eq := by
+  cases k with
+  | nil => simpa [plug] using h
+  | cons f fs => exact plug_isOp_of_ne_nil (by simp) _ _ _
+
+theorem csApply_kind {k k' : Ctx} {n n' : Ex} (h : csApply k n = .ok (k', n')) :
+    k' = k ∧ n'.isOp .eq = n.isOp .eq := by
+  unfold csApply at h
+  repeat' (split at h)
+  all_goals (first | (simp at h; done) | skip)
+  all_goals (
+    simp at h
+    obtain ⟨rfl, rfl⟩ := h
+    exact ⟨rfl, by simp [Ex.isOp]⟩)
+
+theorem caStep_kind {n n' : Ex} {ty : CAType} (h : caStep n = some (ty, .ok n')) :
+    n'.isOp .eq = false ∧ n.isOp .eq = false := by
+  unfold caStep at h
+  repeat' (split at h)
+  all_goals (first | (simp at h; done) | skip)
+  all_goals (
+    simp at h
+    first
+    | (obtain ⟨-, rfl⟩ := h
+       simp_all [Ex.isOp, @eq_comm _ Bop.eq])
+    | (obtain ⟨-, h⟩ := h
+       obtain ⟨v, -, rfl⟩ := foldConst_ok h
+       simp_all [Ex.isOp, @eq_comm _ Bop.eq]))
+
+theorem dfStep_kind {n ln rn : Ex} {ty : DFType} {lt rt : TermEx} {wrap : Ex → Ex}
+    (h : dfStep n = some (ty, (ln, lt), (rn, rt), wrap)) (a b : Ex) :
+    (wrap (.bin 0 .mul a b)).isOp .eq = false ∧ n.isOp .eq = false := by
+  unfold dfStep at h
+  repeat' (split at h)
+  all_goals (first | (simp at h; done) | skip)
+  all_goals (
+    simp at h
+    obtain ⟨-, ⟨rfl, rfl⟩, ⟨rfl, rfl⟩, rfl⟩ := h
+    simp [Ex.isOp])
+
+theorem rsStep_kind {k : Ctx} {n n' : Ex} {ty : RSType} (h : rsStep k n = some (ty, n')) :
+    n'.isOp .eq = false ∧ n.isOp .eq = false := by
+  unfold rsStep at h
+  repeat' (split at h)
+  all_goals (first | (simp at h; done) | skip)
+  all_goals (
+    simp at h
+    obtain ⟨-, rfl⟩ := h
+    simp [Ex.isOp])
+
+theorem vmStep_kind {n : Ex} {ty : VMType} {ln rn : Ex} {lt rt : TermEx}
+    {wrap : List Rat → Ex → Ex}
+    (h : vmStep n = some (ty, (ln, lt), (rn, rt), wrap)) (coefs : List Rat) (a b : Ex) :
+    (wrap coefs (.bin 0 .pow a b)).isOp .eq = false ∧ n.isOp .eq = false := by
+  have hn : n.isOp .eq = false := by
+    unfold vmStep at h
+    split at h
+    · simp [Ex.isOp]
+    · simp at h
+  refine ⟨?_, hn⟩
+  have hw : wrap = vmWrapSimple ∨ (∃ keep, wrap = vmWrapChained keep) ∨
+      (∃ keep, wrap = vmWrapCLR keep) := by
+    unfold vmStep at h
+    split at h
+    rotate_left
+    · simp at h
+    simp only at h
+    split at h
+    · rename_i hclr
+      simp at h
+      subst h
+      split at hclr
+      rotate_left
+      · simp at hclr
+      split at hclr
+      rotate_left
+      · simp at hclr
+      split at hclr
+      rotate_left
+      · simp at hclr
+      simp at hclr
+      obtain ⟨-, -, -, rfl⟩ := hclr
+      simp
+    · split at h
+      · simp at h
+      · split at h
+        · simp at h
+        · split at h
+          · split at h
+            · simp at h
+            · split at h
+              · simp at h
+              · simp at h
+                obtain ⟨-, -, -, rfl⟩ := h
+                simp
+          · split at h
+            rotate_left
+            · simp at h
+            split at h
+            · simp at h
+            · split at h
+              · simp at h
+              · split at h
+                · simp at h
+                · simp at h
+                  obtain ⟨-, -, -, rfl⟩ := h
+                  simp
+  rcases hw with rfl | ⟨keep, rfl⟩ | ⟨keep, rfl⟩ <;>
+    rcases coefs with _ | ⟨a, _ | ⟨b, _ | ⟨c, cs⟩⟩⟩ <;>
+    simp [vmWrapSimple, vmWrapChained, vmWrapCLR, Ex.isOp]
+
+/-- the rules that leave the context alone keep the kind of the node -/
+theorem applyRule_kind_local {r : Rule} {k k' : Ctx} {n n' : Ex}
+    (hr : r ≠ .associative) (hb : r ≠ .balancedMove)
+    (h : applyRule r k n = .ok (k', n')) : k' = k ∧ n'.isOp .eq = n.isOp .eq := by
+  cases r with
+  | associative => exact absurd rfl hr
+  | balancedMove => exact absurd rfl hb
+  | commutative p => exact csApply_kind h
+  | constants =>
+    simp only [applyRule] at h
+    unfold caApply at h
+    split at h
+    · simp at h
+    · rename_i hs
+      simp at h
+      obtain ⟨rfl, rfl⟩ := h
+      obtain ⟨h1, h2⟩ := caStep_kind hs
+      exact ⟨rfl, by rw [h1, h2]⟩
+    · simp at h
+  | factorOut c =>
+    simp only [applyRule] at h
+    unfold dfApply at h
+    split at h
+    · simp at h
+    · rename_i ty ln lt rn rt wrap hs
+      split at h
+      · rename_i core hc
+        simp at h
+        obtain ⟨rfl, rfl⟩ := h
+        have hcore : ∃ a b, core = .bin 0 .mul a b := by
+          unfold dfCore at hc
+          repeat' (split at hc)
+          all_goals (first | (simp at hc; done) | skip)
+          all_goals (simp at hc; subst hc; exact ⟨_, _, rfl⟩)
+        obtain ⟨a, b, rfl⟩ := hcore
+        obtain ⟨h1, h2⟩ := dfStep_kind hs a b
+        exact ⟨rfl, by rw [h1, h2]⟩
+      · simp at h
+  | distribute =>
+    simp only [applyRule] at h
+    unfold dmApply at h
+    split at h
+    · simp at h
+      obtain ⟨rfl, rfl⟩ := h
+      exact ⟨rfl, by simp [dmBuild, Ex.isOp]⟩
+    · simp at h
+      obtain ⟨rfl, rfl⟩ := h
+      exact ⟨rfl, by simp [dmBuild, Ex.isOp]⟩
+    · simp at h
+  | inverse =>
+    simp only [applyRule] at h
+    unfold miApply at h
+    split at h
+    · simp at h
+      obtain ⟨rfl, rfl⟩ := h
+      exact ⟨rfl, by simp [Ex.isOp]⟩
+    · simp at h
+      obtain ⟨rfl, rfl⟩ := h
+      exact ⟨rfl, by simp [Ex.isOp]⟩
+    · simp at h
+  | restate =>
+    simp only [applyRule] at h
+    unfold rsApply at h
+    split at h
+    · rename_i hs
+      simp at h
+      obtain ⟨rfl, rfl⟩ := h
+      obtain ⟨h1, h2⟩ := rsStep_kind hs
+      exact ⟨rfl, by rw [h1, h2]⟩
+    · simp at h
+  | variableMultiply =>
+    simp only [applyRule] at h
+    unfold vmApply at h
+    split at h
+    · simp at h
+    · rename_i ty ln lt rn rt wrap hs
+      split at h
+      · simp at h
+      · simp at h
+        obtain ⟨rfl, rfl⟩ := h
+        obtain ⟨h1, h2⟩ := vmStep_kind hs (vmCoefs lt rt) (.var 0 ‹Char›)
+          (.bin 0 .add (.const 0 (lt.exp.getD 1)) (.const 0 (rt.exp.getD 1)))
+        exact ⟨rfl, by rw [h1, h2]⟩
+
+theorem asApply_kind {k k' : Ctx} {n n' : Ex} (hc : asCan k n = true)
+    (h : asApply k n = .ok (k', n')) : (plug k' n').isOp .eq = (plug k n).isOp .eq := by
+  rcases k with _ | ⟨f, k1⟩
+  · simp [asApply] at h
+  cases n with
+  | const t v => cases f <;> simp [asApply] at h
+  | var t v => cases f <;> simp [asApply] at h
+  | un t o c => cases f <;> simp [asApply] at h
+  | bin nt no a b =>
+    cases f with
+    | un t o => simp [asApply] at h
+    | binL pt po c =>
+      simp [asApply] at h
+      obtain ⟨rfl, rfl⟩ := h
+      cases k1 with
+      | nil =>
+        simp [asCan, parentIs, Frame.isOp, Ex.isOp] at hc
+        rcases hc with ⟨rfl, rfl⟩ | ⟨rfl, rfl⟩ <;> simp [plug, Frame.fill, Ex.isOp]
+      | cons g gs => exact plug_isOp_of_ne_nil (k := g :: gs) (by simp) _ _ _
+    | binR pt po c =>
+      simp [asApply] at h
+      obtain ⟨rfl, rfl⟩ := h
+      cases k1 with
+      | nil =>
+        simp [asCan, parentIs, Frame.isOp, Ex.isOp] at hc
+        rcases hc with ⟨rfl, rfl⟩ | ⟨rfl, rfl⟩ <;> simp [plug, Frame.fill, Ex.isOp]
+      | cons g gs => exact plug_isOp_of_ne_nil (k := g :: gs) (by simp) _ _ _
+
+theorem bmApply_kind {k k' : Ctx} {n n' : Ex} (h : bmApply k n = .ok (k', n')) :
+    (plug k' n').isOp .eq = (plug k n).isOp .eq := by
+  unfold bmApply at h
+  split at h
+  rotate_left
+  · simp at h
+  rename_i ty inner rootF hty hsr
+  rw [bmType_root_eq hty]
+  obtain ⟨hroot, -, -⟩ := bmType_spec hty hsr
+  simp only at h
+  cases rootF with
+  | un t o => simp [Frame.isOp] at hroot
+  | binL rt ro r =>
+    simp [Frame.isOp] at hroot
+    subst hroot
+    cases ty <;> simp only at h
+    · split at h
+      · simp at h
+      · simp at h; obtain ⟨rfl, rfl⟩ := h; simp [plug, Ex.isOp]
+    · simp at h; obtain ⟨rfl, rfl⟩ := h; simp [plug, Ex.isOp]
+  | binR rt ro l =>
+    simp [Frame.isOp] at hroot
+    subst hroot
+    cases ty <;> simp only at h
+    · split at h
+      · simp at h
+      · simp at h; obtain ⟨rfl, rfl⟩ := h; simp [plug, Ex.isOp]
+    · simp at h; obtain ⟨rfl, rfl⟩ := h; simp [plug, Ex.isOp]
+
 /-- a rewrite never turns an expression into an equation or vice versa -/
 theorem applyAt_root_kind (r : Rule) (t t' : Ex) (i : Nat)
     (hcan : i ∈ findNodes r t) (happ : applyAt r t i = .ok t') : t'.isOp .eq = t.isOp .eq := by
-  sorry
+  obtain ⟨k, n, hf, hc⟩ := mem_findNodes.mp hcan
+  unfold applyAt at happ
+  rw [hf] at happ
+  simp only at happ
+  split at happ
+  · rename_i k' n' happ'
+    simp at happ
+    subst happ
+    rw [← focusAt_plug hf]
+    by_cases hr : r = .associative
+    · subst hr; exact asApply_kind hc happ'
+    by_cases hb : r = .balancedMove
+    · subst hb; exact bmApply_kind happ'
+    obtain ⟨rfl, hk⟩ := applyRule_kind_local hr hb happ'
+    exact plug_isOp_same _ hk
+  · simp at happ
 
 /-- expressions: every state of the sequence has the value of the start wherever the start is
 defined, and is still an expression -/
